@@ -48,9 +48,9 @@ EliteClause(ev) ==
 \* st.prevbest: best aggregate of the previous generation (st.has)
 C16Clause(s, ev) ==
     CASE ev.e = "elite" -> EliteClause(ev)
-      \* antecedent: the composition reserved >= 1 elite slot AND the elitism step was shown the whole
-      \* previous generation (an ExclusiveParallelStep only shows it a slice)
-      [] ev.e = "genfit" -> IF s.has /\ ev.elite_slots >= 1 /\ ev.elite_in >= Cfg.n /\ SeqMax(ev.fits) < s.prevbest
+      \* antecedent: the composition reserved >= 1 elite slot; an ExclusiveParallelStep shows the elitism step only a
+      \* slice by design, there the whole previous generation must have been shown to it for the clause to apply
+      [] ev.e = "genfit" -> IF s.has /\ ev.elite_slots >= 1 /\ (Cfg.exclusive => ev.elite_in >= Cfg.n) /\ SeqMax(ev.fits) < s.prevbest
                             THEN "C16:best-regressed" ELSE "ok"
       [] ev.e = "runfail" -> "C16:run-raises"
       [] OTHER -> "ok"
